@@ -28,6 +28,19 @@ static unsigned char* arena;		/* snapshot storage */
 static size_t arena_cap, arena_len;
 static long nalloc, nfree, fail_at, failed;
 static int overflow;
+/* every tracked block carries CAN octets of a known pattern behind the requested size: a write past the end of a block the
+   library owns (e.g. a wipe with a wrong size on an error path) is seen when the block is released or the call ends */
+#define CAN 16
+static long overruns;
+static size_t overrun_size, overrun_off;
+static void can_set(void* p, size_t n) { memset((unsigned char*)p + n, 0xC5, CAN); }
+static void can_check(void* p, size_t n)
+{
+	size_t i;
+	const unsigned char* c = (const unsigned char*)p + n;
+	for (i = 0; i < CAN; ++i)
+		if (c[i] != 0xC5) { if (!overruns) overrun_size = n, overrun_off = i; ++overruns; return; }
+}
 
 static int from_lib(void* ra)
 {
@@ -65,9 +78,10 @@ static void* track_alloc(size_t n, int zero)
 	void* p;
 	++nalloc;
 	if (fail_at && nalloc == fail_at) { ++failed; return 0; }
-	p = zero ? __libc_calloc(1, n) : __libc_malloc(n);
+	p = zero ? __libc_calloc(1, n + CAN) : __libc_malloc(n + CAN);
 	if (p)
 	{
+		can_set(p, n);
 		if (ntab < MAXB) tab[ntab].p = p, tab[ntab].n = n, tab[ntab].live = 1, ++ntab;
 		else overflow = 1;
 	}
@@ -95,6 +109,7 @@ void free(void* p)
 		int i = find(p);
 		if (i >= 0)
 		{
+			can_check(p, tab[i].n);
 			snapshot(p, tab[i].n, 0);
 			tab[i].live = 0;
 			++nfree;
@@ -113,14 +128,17 @@ void* realloc(void* p, size_t n)
 		if (fail_at && nalloc == fail_at) { ++failed; return 0; }
 		if (i < 0)
 		{
-			q = __libc_realloc(p, n);
+			q = __libc_realloc(p, n + CAN);
+			if (q) can_set(q, n);
 			if (q && ntab < MAXB) tab[ntab].p = q, tab[ntab].n = n, tab[ntab].live = 1, ++ntab;
 			return q;
 		}
 		/* emulate a moving realloc so that the abandoned block can be inspected: new block, copy, snapshot old, free old */
-		q = __libc_malloc(n);
+		q = __libc_malloc(n + CAN);
 		if (!q) return 0;
 		memcpy(q, p, tab[i].n < n ? tab[i].n : n);
+		can_set(q, n);
+		can_check(p, tab[i].n);
 		snapshot(p, tab[i].n, 1);
 		tab[i].live = 0;
 		++nfree;
@@ -136,10 +154,12 @@ void* realloc(void* p, size_t n)
 void wa_set_range(uintptr_t l, uintptr_t h) { lo = l, hi = h; }
 void wa_begin(long fail_at_n)
 {
-	ntab = nsnaps = 0; arena_len = 0; nalloc = nfree = failed = 0; overflow = 0;
+	ntab = nsnaps = 0; arena_len = 0; nalloc = nfree = failed = 0; overflow = 0; overruns = 0;
 	fail_at = fail_at_n; active = 1;
 }
-void wa_end(void) { active = 0; }
+void wa_end(void) { int i; active = 0; for (i = 0; i < ntab; ++i) if (tab[i].live) can_check(tab[i].p, tab[i].n); }
+long wa_overruns(void) { return overruns; }
+size_t wa_overrun_size(void) { return overrun_size; }
 long wa_nalloc(void) { return nalloc; }
 long wa_nfree(void) { return nfree; }
 long wa_failed(void) { return failed; }
